@@ -80,6 +80,27 @@ def windows(ctx, g):
     mn = [norm(nb.origin(rv["ops"][rv["fields"].index("min_curvature")]), g) for bi, si, s in nb.assigns() for rv in [s["rv"]]
           if rv["k"] == "aggregate" and rv.get("agg") == "adt" and "min_curvature" in rv.get("fields", [])]
     okmn = bool(mn) and mn[0][0] == "call" and mn[0][1].endswith("Ord::max") and ("call", M + "Geometries::min_curvature", (geoms,)) in mn[0][2]
+    # pruning bound implied by minimal hyperbolicity: lowering one branching number 2 -> 1 on a cone orbit gains 2*CURV_FAC*(1/1 - 1/2) = CURV_FAC,
+    # so for base_curvature >= 0 nothing below -CURV_FAC can be minimally hyperbolic, but everything down to -CURV_FAC can
+    cf = ctx.facts.consts.get(M + "CURV_FAC", {}).get("int")
+    if okmn and cf is not None:
+        other = [x for x in mn[0][2] if x != ("call", M + "Geometries::min_curvature", (geoms,))]
+        consts = []
+        for x in other:
+            raw = x
+            if x[0] == "local":
+                for dbb, dt in nb.all_defs_origins(x[1]):
+                    v = eval_int(dt)
+                    if v is not None:
+                        consts.append(v)
+            else:
+                v = eval_int(x)
+                if v is not None:
+                    consts.append(v)
+        okp = bool(consts) and all(v <= -cf for v in consts)
+        ctx.ob("T4-pruning-bound", nb.name, "min_curvature floor for base_curvature >= 0", "ok" if okp else "violation",
+               "the pruning floor %s is <= -CURV_FAC = %d (a single lowering 2 -> 1 on a cone orbit gains CURV_FAC)" % (consts, -cf) if okp else
+               "the pruning floor %s is above -CURV_FAC = %d: minimally hyperbolic assignments with curvature in [-CURV_FAC, floor) are pruned" % (consts, -cf))
     ctx.require(okmn, "T4-curvature-window", nb.name, "min_curvature field", "lower end = max(geoms.min_curvature(), ..): never below the requested window",
                 "the stored lower end of the window is not max(geoms.min_curvature(), ..): %s" % [show(x, 1)[:60] for x in mn])
 
